@@ -49,7 +49,8 @@ Fixpoint ins_kv (p : bytes * bytes) (l : smap) : smap :=
   match l with [] => [p] | q :: l' => match bcmp (fst p) (fst q) with Lt => p :: l | Eq => p :: l' | Gt => q :: ins_kv p l' end end.
 Definition sm_sorted (m : smap) : smap := fold_right ins_kv [] m.
 
-Record sdb := mkS { s_map : smap; s_ids : list N; s_scope : list own; s_live : bool; s_dir : N }.
+Record sdb := mkS { s_map : smap; s_ids : list N; s_scope : list own; s_live : bool; s_dir : N;
+                     s_pend : list N (* ids a retention update dropped from the list but whose removal has not been saved yet *) }.
 Record spec := mkSpec {
   p_dbs : list sdb;
   p_snaps : list (N * (smap * list own));    (* checkpoint id -> oracle map and scope at the call *)
@@ -70,8 +71,42 @@ Definition completed (p : spec) (id : N) : bool := existsb (fun h => fst h =? id
 Definition spec_write (p : spec) (d : N) (k : bytes) (v : option bytes) : spec :=
   match sget p d with
   | Some x => if s_live x && in_scope (s_scope x) k then
-                sset p d (mkS (match v with Some v' => sm_put (s_map x) k v' | None => sm_del (s_map x) k end) (s_ids x) (s_scope x) true (s_dir x))
+                sset p d (mkS (match v with Some v' => sm_put (s_map x) k v' | None => sm_del (s_map x) k end) (s_ids x) (s_scope x) true (s_dir x) (s_pend x))
               else p
+  | None => p
+  end.
+
+(* a Save of database d that wrote the checkpoints file: the ids dropped from its list are no longer in the durable list *)
+Definition spec_saved (p : spec) (d : N) : spec :=
+  match sget p d with
+  | Some x => let p1 := sset p d (mkS (s_map x) (s_ids x) (s_scope x) (s_live x) (s_dir x) []) in
+              mkSpec (p_dbs p1) (p_snaps p) (p_tasks p) (p_done p) (p_dropped p ++ s_pend x) (p_wals p) (p_d11 p) (p_nextdir p)
+  | None => p
+  end.
+
+Definition spec_ckpt_step (p : spec) (d id f : N) : spec :=
+  match find (fun t => fst t =? id) (p_tasks p), sget p d with
+  | Some (_, false), _ =>
+      if f =? 1 then (* the WAL save failed: this checkpoint never completes *)
+        mkSpec (p_dbs p) (p_snaps p) (filter (fun t => negb (fst t =? id)) (p_tasks p)) (p_done p) (p_dropped p) (p_wals p) (p_d11 p) (p_nextdir p)
+      else
+        mkSpec (p_dbs p) (p_snaps p) (map (fun t => if fst t =? id then (id, true) else t) (p_tasks p)) (p_done p) (p_dropped p) (p_wals p) (p_d11 p) (p_nextdir p)
+  | Some (_, true), Some x =>
+      let p1 := mkSpec (p_dbs p) (p_snaps p) (filter (fun t => negb (fst t =? id)) (p_tasks p)) (p_done p) (p_dropped p) (p_wals p) (p_d11 p) (p_nextdir p) in
+      if f =? 1 then p1
+      else let p2 := spec_saved p1 d in
+           if (f =? 2) && negb (match s_pend x with [] => true | _ => false end) then p2
+           else mkSpec (p_dbs p2) (p_snaps p2) (p_tasks p2) (p_done p2 ++ [(id, s_dir x)]) (p_dropped p2) (p_wals p2) (p_d11 p2) (p_nextdir p2)
+  | _, _ => p
+  end.
+
+Definition spec_retain (p : spec) (d : N) (ids : list N) (f : N) : spec :=
+  match sget p d with
+  | Some x =>
+      let stays := fun i => memN i ids || (fold_right N.max 0 ids <? i) in
+      let gone := filter (fun i => negb (stays i)) (s_ids x) in
+      let p1 := sset p d (mkS (s_map x) (filter stays (s_ids x)) (s_scope x) (s_live x) (s_dir x) (s_pend x ++ gone)) in
+      if f =? 1 then p1 else spec_saved p1 d
   | None => p
   end.
 
@@ -81,40 +116,27 @@ Definition spec_step (p : spec) (o : op) (restore_ok : bool) : spec :=
   | ODel d k _ => spec_write p d k None
   | OCkpt d id =>
       match sget p d with
-      | Some x => let p1 := sset p d (mkS (s_map x) (s_ids x ++ [id]) (s_scope x) (s_live x) (s_dir x)) in
+      | Some x => let p1 := sset p d (mkS (s_map x) (s_ids x ++ [id]) (s_scope x) (s_live x) (s_dir x) (s_pend x)) in
                   mkSpec (p_dbs p1) ((id, (s_map x, s_scope x)) :: p_snaps p) (p_tasks p ++ [(id, false)]) (p_done p) (p_dropped p) (p_wals p) (p_d11 p) (p_nextdir p)
       | None => p
       end
-  | OStepCkpt d id =>
-      match find (fun t => fst t =? id) (p_tasks p), sget p d with
-      | Some (_, false), _ =>
-          mkSpec (p_dbs p) (p_snaps p) (map (fun t => if fst t =? id then (id, true) else t) (p_tasks p)) (p_done p) (p_dropped p) (p_wals p) (p_d11 p) (p_nextdir p)
-      | Some (_, true), Some x =>
-          mkSpec (p_dbs p) (p_snaps p) (filter (fun t => negb (fst t =? id)) (p_tasks p)) (p_done p ++ [(id, s_dir x)]) (p_dropped p) (p_wals p) (p_d11 p) (p_nextdir p)
-      | _, _ => p
-      end
-  | ORetain d ids =>
-      match sget p d with
-      | Some x =>
-          let stays := fun i => memN i ids || (fold_right N.max 0 ids <? i) in
-          let gone := filter (fun i => negb (stays i)) (s_ids x) in
-          let p1 := sset p d (mkS (s_map x) (filter stays (s_ids x)) (s_scope x) (s_live x) (s_dir x)) in
-          mkSpec (p_dbs p1) (p_snaps p) (p_tasks p) (p_done p) (p_dropped p ++ gone) (p_wals p) (p_d11 p) (p_nextdir p)
-      | None => p
-      end
+  | OStepCkpt d id => spec_ckpt_step p d id 0
+  | OStepCkptF d id f => spec_ckpt_step p d id f
+  | ORetain d ids => spec_retain p d ids 0
+  | ORetainF d ids f => spec_retain p d ids f
   | ORestore _ id same ow _ =>
       let hd := match find (fun h => fst h =? id) (p_done p) with Some h => snd h | None => 0 end in
       let dir := if same then hd else p_nextdir p in
       let '(m, sc) := match find (fun s => fst s =? id) (p_snaps p) with Some s => snd s | None => ([], []) end in
       let sc' := ow :: sc in
-      let x := mkS (filter (fun kv => in_scope sc' (fst kv)) m) [id] sc' restore_ok dir in
+      let x := mkS (filter (fun kv => in_scope sc' (fst kv)) m) [id] sc' restore_ok dir [] in
       (* restoring into the directory of the source supersedes the other handles of that directory *)
       let gone := if same then map fst (filter (fun h => (snd h =? hd) && negb (fst h =? id)) (p_done p)) else [] in
       mkSpec (p_dbs p ++ [x]) (p_snaps p) (p_tasks p) (p_done p) (p_dropped p ++ gone) (p_wals p) (p_d11 p)
              (if same then p_nextdir p else p_nextdir p + 1)
   | OCrash d | ODrop d =>
       match sget p d with
-      | Some x => let p1 := sset p d (mkS (s_map x) (s_ids x) (s_scope x) false (s_dir x)) in
+      | Some x => let p1 := sset p d (mkS (s_map x) (s_ids x) (s_scope x) false (s_dir x) (s_pend x)) in
                   (* checkpoints of that object that had not completed never will *)
                   mkSpec (p_dbs p1) (p_snaps p) (filter (fun t => negb (memN (fst t) (s_ids x))) (p_tasks p)) (p_done p) (p_dropped p) (p_wals p) (p_d11 p) (p_nextdir p)
       | None => p
@@ -203,6 +225,8 @@ Definition check_step (st : world * spec) (so : op * obs) : (world * spec) * lis
                     end
                 | ORead d, Some r => match get_db w' d with Some x => flag (robs_eqb r (model_read w' x keys)) 1 | None => [1] end
                 | ORetain _ _, Some _ => [1]
+                | ORetainF d ids f, Some r => flag ((r_outcome r =? 1) && negb (retain_ok w d ids f)) 1
+                | ORetainF d ids f, None => flag (retain_ok w d ids f) 1
                 | _, _ => [] end in
   let c_gc := match o with OGc => flag (names_eqb (o_gcdel ob) (sort_names (gc_deleted w))) 7 | _ => [] end in
   (* ----- specification ----- *)
@@ -214,13 +238,13 @@ Definition check_step (st : world * spec) (so : op * obs) : (world * spec) * lis
                    else []) (o_handles ob) in
   let s_live := flat_map (fun l => match l_missing l with [] => [] | ms => if subset_names ms d11 then [111] else [101] end) (o_live ob) in
   let s_wal := match o with
-               | ORetain d ids =>
-                   match sget p d with
-                   | Some x => flat_map (fun i => if memN i ids || (fold_right N.max 0 ids <? i) then [] else
-                                                  match find (fun q => fst q =? i) (p_wals p') with
-                                                  | Some q => flag (negb (mem_name (snd q) (o_files ob))) 102
-                                                  | None => [] end) (s_ids x)
-                   | None => [] end
+               | ORetain _ _ | OStepCkpt _ _ =>
+                   (* the update has been saved and its deletions did not fail: the WAL of every id that just left the
+                      durable list must be gone *)
+                   flat_map (fun i => if memN i (p_dropped p) then [] else
+                                      match find (fun q => fst q =? i) (p_wals p') with
+                                      | Some q => flag (negb (mem_name (snd q) (o_files ob))) 102
+                                      | None => [] end) (p_dropped p')
                | _ => [] end in
   let s_during := match o_during ob with [] => [] | _ => [104] end in
   let s_restore := match o, o_read ob with
@@ -248,7 +272,7 @@ Fixpoint dedup (l : list N) : list N :=
 
 Definition check_case (c : case) : list N :=
   let init := (init_world (k_mem c) (k_wal c),
-               mkSpec [mkS [] [] [] true 0] [] [] [] [] [] [] 1) in
+               mkSpec [mkS [] [] [] true 0 []] [] [] [] [] [] [] 1) in
   dedup (snd (fold_left (fun acc so => let '(st, codes) := check_step (fst acc) so in (st, snd acc ++ codes)) (k_steps c) (init, []))).
 
 Definition is_c09_code (c : N) : bool := (c =? 2) || (c =? 3) || (c =? 4) || (c =? 7) || (100 <=? c).
